@@ -1,8 +1,156 @@
-/- Driver handler owned by property C15: `c15 <args…>` requests. -/
+/- Driver handler owned by property C15: `c15 <args…>` requests.
+
+   `c15 facts`                         → the generated lock facts, printed
+   `c15 cap <size> <required>`         → `compute_capacity` (generated): `ok:<n>` / `panic`
+   `c15 run <sz> <nslots> <op> …`      → the model (`RotoV.ListM.step`) on one history
+   `c15 spec <nslots> <op> …`          → the shared-vector specification on the same history
+   `c15 runm <sz> <nslots> <tok> …`    → the model; one record per token: the result of an op,
+                                          or for the marker `!` a dump `!<slot>/<slot>/…;<live>`
+                                          (nested histories compiled to handle variables)
+   `c15 pinned <sz> <nslots> <op> …`   → as `run`, but typed `==` uses the lock targets of the
+                                          pinned tree (`[self, self]`)
+   answer: one `|`-separated record per op: `<out>;<slot>/<slot>/…;<live>`
+      out   = `u` | `n<k>` | `b0` | `b1` | `o-` | `o<k>` | `v<k,k,…>` | `F:<fault>`
+      slot  = `-` (empty) or `<len>:<cap>:<e,e,…>`   (spec: cap is `?`)
+      live  = live element tokens (spec: `?`)
+   ops:  n:<d>  f:<d>:<v,v,…>  c:<d>:<src>  d:<h>  p:<h>:<v>  g:<h>:<i>  l:<h>  e:<h>  k:<h>
+         s:<h>:<i>:<j>  +:<d>:<a>:<b>  ?:<h>:<v>  i:<h>:<v>  =:<a>:<b> (typed)  ~:<a>:<b> (erased)
+         v:<h>  it:<h>  j:<h>
+-/
 import Driver.Util
+import RotoV.Model.ListM
 
 namespace Driver.C15
+open RotoV RotoV.ListM
 
-def handle (_args : List String) : String := "bad-op"
+def nat? (s : String) : Option Nat := s.toNat?
+
+def natList? (s : String) : Option (List Nat) :=
+  if s == "" then some [] else (s.splitOn ",").mapM nat?
+
+def parseOp (tok : String) : Option Op :=
+  match tok.splitOn ":" with
+  | ["n", d] => (nat? d).map .new
+  | ["f", d, xs] => do pure (.fromVec (← nat? d) (← natList? xs))
+  | ["f", d] => do pure (.fromVec (← nat? d) [])
+  | ["c", d, s] => do pure (.cloneH (← nat? d) (← nat? s))
+  | ["d", h] => (nat? h).map .dropH
+  | ["p", h, v] => do pure (.push (← nat? h) (← nat? v))
+  | ["g", h, i] => do pure (.get (← nat? h) (← nat? i))
+  | ["l", h] => (nat? h).map .len
+  | ["e", h] => (nat? h).map .isEmpty
+  | ["k", h] => (nat? h).map .capacity
+  | ["s", h, i, j] => do pure (.swap (← nat? h) (← nat? i) (← nat? j))
+  | ["+", d, a, b] => do pure (.concat (← nat? d) (← nat? a) (← nat? b))
+  | ["?", h, v] => do pure (.contains (← nat? h) (← nat? v))
+  | ["i", h, v] => do pure (.index (← nat? h) (← nat? v))
+  | ["=", a, b] => do pure (.eq (← nat? a) (← nat? b) true)
+  | ["~", a, b] => do pure (.eq (← nat? a) (← nat? b) false)
+  | ["v", h] => (nat? h).map .toVec
+  | ["it", h] => (nat? h).map .iter
+  | ["j", h] => (nat? h).map .join
+  | _ => none
+
+def showFault : Fault → String
+  | .deadlock => "deadlock"
+  | .panic => "panic"
+  | .ub => "ub"
+  | .badHandle => "badhandle"
+
+def showNats (l : List Nat) : String := ",".intercalate (l.map toString)
+
+def showOut : Out → String
+  | .unit => "u"
+  | .nat n => s!"n{n}"
+  | .bool b => if b then "b1" else "b0"
+  | .opt none => "o-"
+  | .opt (some n) => s!"o{n}"
+  | .vals l => s!"v{showNats l}"
+  | .fault f => s!"F:{showFault f}"
+
+def showSlots (s : St) : String :=
+  "/".intercalate (s.slots.map fun
+    | none => "-"
+    | some a =>
+      match s.getAlloc a with
+      | none => "freed"
+      | some l => s!"{l.len}:{l.cap}:{showNats l.elems}{if l.locked then ":LOCKED" else ""}")
+
+def showSpecSlots (t : Spec) : String :=
+  "/".intercalate ((List.range t.slots.length).map fun h =>
+    match t.vec h with
+    | none => "-"
+    | some (_, xs) => s!"{xs.length}:?:{showNats xs}")
+
+def runHist (stepf : St → Op → Out × St) : St → List Op → List String → List String
+  | _, [], acc => acc.reverse
+  | s, op :: rest, acc =>
+    let r := stepf s op
+    runHist stepf r.2 rest (s!"{showOut r.1};{showSlots r.2};{r.2.live}" :: acc)
+
+def runSpec : Spec → List Op → List String → List String
+  | _, [], acc => acc.reverse
+  | t, op :: rest, acc =>
+    let r := specStep t op
+    runSpec r.2 rest (s!"{showOut r.1};{showSpecSlots r.2};?" :: acc)
+
+/-- the step function with the pinned tree's typed `==` -/
+def stepPinned (sz : Nat) (s : St) (op : Op) : Out × St :=
+  match op with
+  | .eq a b true =>
+    match s.slot a, s.slot b with
+    | .ok x, .ok y =>
+      match typedEqAsPinned s x y with
+      | .ok r => r
+      | .error f => (.fault f, s)
+    | _, _ => (.fault .badHandle, s)
+  | op => step sz s op
+
+/-- `runm`: as `run`, but a record is only the operation's result; the token `!`
+    is not an operation: it dumps every variable (`<slots>;<live>`) -/
+def runMarked (sz : Nat) : St → List String → List String → Option (List String)
+  | _, [], acc => some acc.reverse
+  | s, tok :: rest, acc =>
+    if tok == "!" then runMarked sz s rest (s!"!{showSlots s};{s.live}" :: acc)
+    else
+      match parseOp tok with
+      | none => none
+      | some op =>
+        let r := step sz s op
+        runMarked sz r.2 rest (showOut r.1 :: acc)
+
+def handle (args : List String) : String :=
+  match args with
+  | ["facts"] =>
+    s!"typedEq shortcut={Gen.ListLocks.typedEqShortcut} locksLt={repr Gen.ListLocks.typedEqLocksLt} cmpLt={repr Gen.ListLocks.typedEqCompareLt} locksGe={repr Gen.ListLocks.typedEqLocksGe} cmpGe={repr Gen.ListLocks.typedEqCompareGe}; " ++
+    s!"erasedEq shortcut={Gen.ListLocks.erasedEqShortcut} locksLt={repr Gen.ListLocks.erasedEqLocksLt} cmpLt={repr Gen.ListLocks.erasedEqCompareLt} locksGe={repr Gen.ListLocks.erasedEqLocksGe} cmpGe={repr Gen.ListLocks.erasedEqCompareGe}; " ++
+    s!"concat same={repr Gen.ListLocks.concatStepsSame} lt={repr Gen.ListLocks.concatStepsLt} ge={repr Gen.ListLocks.concatStepsGe}" |>.replace "\n" " "
+  | ["cap", sz, req] =>
+    match nat? sz, nat? req with
+    | some sz, some req =>
+      match Gen.Capacity.compute_capacity true sz req with
+      | .ok n => s!"ok:{n}"
+      | .panic => "panic"
+    | _, _ => "bad-op"
+  | "run" :: sz :: n :: toks =>
+    match nat? sz, nat? n, toks.mapM parseOp with
+    | some sz, some n, some ops => "|".intercalate (runHist (step sz) (St.init n) ops [])
+    | _, _, _ => "bad-op"
+  | "runm" :: sz :: n :: toks =>
+    match nat? sz, nat? n with
+    | some sz, some n =>
+      match runMarked sz (St.init n) toks [] with
+      | some recs => "|".intercalate recs
+      | none => "bad-op"
+    | _, _ => "bad-op"
+  | "pinned" :: sz :: n :: toks =>
+    match nat? sz, nat? n, toks.mapM parseOp with
+    | some sz, some n, some ops => "|".intercalate (runHist (stepPinned sz) (St.init n) ops [])
+    | _, _, _ => "bad-op"
+  | "spec" :: n :: toks =>
+    match nat? n, toks.mapM parseOp with
+    | some n, some ops => "|".intercalate (runSpec (Spec.init n) ops [])
+    | _, _ => "bad-op"
+  | _ => "bad-op"
 
 end Driver.C15
